@@ -87,7 +87,8 @@ def run_session(spec, subs=None, candles=None, keep_events=True, snapshots=True,
         if not spec.get('no_isolate'):
             _drivers_after_routes()
         out['result'] = backtest(args['config'], args['routes'], args['data_routes'], args['candles'], args['warmup_candles'],
-                                 hyperparameters=args['hyperparameters'], fast_mode=bool(spec.get('fast')))
+                                 hyperparameters=args['hyperparameters'], fast_mode=bool(spec.get('fast')),
+                                 **(spec.get('options') or {}))
     except Exception as ex:
         out['error'] = {'type': type(ex).__name__, 'msg': str(ex)[:300], 'tb': traceback.format_exc()[-1500:]}
     finally:
